@@ -177,31 +177,38 @@ def check(log, case, cvs_final):
         waits.setdefault(lb_, []).append((g0, float('inf')))
     cut = {}
 
-    def watched(lb, g, excl):
+    def watched(lb, g):
         if any(a < g <= b for a, b in waits.get(lb, [])):
             return True
         for q in parent.get(lb, []):
-            if q == excl or nodes[q]['K'] > g:
-                continue
-            if q in P and P[q][0] < g:
-                continue
-            if cut.get(q, float('inf')) <= g:
-                continue
+            if nodes[q]['K'] > g or (q in P and P[q][0] <= g) or cut.get(q, float('inf')) <= g:
+                continue                      # not built yet / its own checks are gone (processed, or swept away)
             return True
         return False
 
-    def cut_kids(a, g):
-        for k in nodes[a]['kids']:
-            if k not in nodes or nodes[k]['K'] > g:
-                continue
-            if k in P and P[k][0] < g:
-                cut_kids(k, g)            # an already processed node has no waiters: the sweep passes through it
-            elif not watched(k, g, a):
-                cut.setdefault(k, g)
-                cut_kids(k, g)
+    def sweep(root, g):
+        """The processed condition `root` takes its checks off its operands; every nested condition left without a
+        watcher loses its checks in turn (and is looked at again whenever another of its watchers goes)."""
+        visited, seen = [root], {root}
+        changed = True
+        while changed:
+            changed = False
+            for v in list(visited):
+                for k in nodes[v]['kids']:
+                    if k not in nodes or nodes[k]['K'] > g or k in seen:
+                        continue
+                    if k in P and P[k][0] < g:
+                        seen.add(k)           # an already processed node has no waiters: the sweep passes through it
+                        visited.append(k)
+                        changed = True
+                    elif not watched(k, g):
+                        cut.setdefault(k, g)
+                        seen.add(k)
+                        visited.append(k)
+                        changed = True
     for g, lb in Pseq:
         if lb in nodes:
-            cut_kids(lb, g)
+            sweep(lb, g)
 
     def anc_triggered_before(label, g):
         for a in ancestors(label):
